@@ -40,7 +40,7 @@ F=[
 out=[dict(id=i,property=p,status="fixed",commit=sha(pat),what=w) for i,p,pat,w in F]
 out += [
  dict(id="KF1",property="C08",status="known",section="restricted_reads",what="VCF region queries are overlap-based (tabix) while the PGEN path filters on POS only: a multi-base REF that starts before the region start and overlaps it is returned for VCF and not for PGEN (choosing a semantics is a maintainer decision)",
-      signature=dict(kind="region_straddles_multibase_ref"), witness=None),
+      signature=dict(kind="region_straddles_multibase_ref"), witness={'samples': ['s0', 's1'], 'variants': [{'id': 'v0', 'chrom': '1', 'pos': 10, 'alleles': ['A', 'C']}, {'id': 'v1', 'chrom': '1', 'pos': 25, 'alleles': ['ACGT', 'A']}], 'data': [[[0, 1, 1], [0, 1, 1]], [[1, 1, 1], [1, 0, 1]]], 'restrictions': [{'region': ['1', 26, 40], 'samples': None, 'ids': None, 'max': None, 'chunk': None}], 'kinds': ['vcf', 'pgen']}),
 ]
 json.dump(out,open('/verif/known_findings.json','w'),indent=1,sort_keys=True)
 print(len(out),'entries')
